@@ -99,6 +99,16 @@ func (f *frame) ifaceContractCall(x ssa.CallInstruction, recv Val, args []Val, i
 // field plays the role of an interface method, `recv` is the struct pointer.
 func (f *frame) funcFieldContractCall(x ssa.CallInstruction, args []Val, in string, st *State) (Val, bool) {
 	cc := x.Common()
+	// a function-valued parameter, captured variable or local variable: the
+	// contract is keyed "<function>.<variable>"
+	if name := funcVarName(f.fn, cc.Value); name != "" {
+		if sig, ok := cc.Value.Type().Underlying().(*types.Signature); ok {
+			key := FuncName(f.fn) + "." + name
+			if r, ok := f.abstractContractCall(key, sig, x, Val{T: "Null", Typ: types.Typ[types.UnsafePointer]}, args, in, st); ok {
+				return r, true
+			}
+		}
+	}
 	ld, ok := cc.Value.(*ssa.UnOp)
 	if !ok {
 		return Val{}, false
@@ -249,4 +259,39 @@ func (vc *VC) expandForeach(spec *FuncSpec, env *Env) []*Clause {
 		}
 	}
 	return out
+}
+
+// funcVarName: the source name of the function-valued variable v is read from
+// (parameter, captured variable, address-taken local, phi of a local, or a
+// value a debug reference names).
+func funcVarName(fn *ssa.Function, v ssa.Value) string {
+	switch x := v.(type) {
+	case *ssa.Parameter:
+		return x.Name()
+	case *ssa.FreeVar:
+		return x.Name()
+	case *ssa.Phi:
+		if x.Comment != "" {
+			return x.Comment
+		}
+	case *ssa.UnOp:
+		switch a := x.X.(type) {
+		case *ssa.FreeVar:
+			return a.Name()
+		case *ssa.Alloc:
+			return a.Comment
+		}
+	}
+	for _, b := range fn.Blocks {
+		for _, ins := range b.Instrs {
+			if d, ok := ins.(*ssa.DebugRef); ok && d.X == v && !d.IsAddr {
+				if obj := d.Object(); obj != nil {
+					if _, isVar := obj.(*types.Var); isVar {
+						return obj.Name()
+					}
+				}
+			}
+		}
+	}
+	return ""
 }
